@@ -199,7 +199,7 @@ def worker(indices):
     rng = random.Random(SEED * 15485863 + (indices[0] if indices else 0))
     hs = {}
     viol = []
-    cnt = dict(cases=0, runs=0, nontrivial=0, objects=0, orm_loaded=0)
+    cnt = dict(cases=0, runs=0, nontrivial=0, objects=0, orm_loaded=0, single_over_joined=0)
     cov = {}
     for ci in indices:
         c = CASES[ci]
@@ -216,6 +216,10 @@ def worker(indices):
             nt = bool(exp) and bool(below)
         if nt:
             cnt["nontrivial"] += 1
+        # a single-table, non-base class queried while rows of a JOINED-table class below it are in the result
+        if q["via"] in ("direct", "jot") and q["at"] != "A" and q["at"] not in ds["tabs"] and \
+                any(c["objs"][t[-1] - 1]["cls"] in ds["tabs"] for t in exp):
+            cnt["single_over_joined"] += 1
         via_orm = rng.random() < 0.3       # the rows are persisted through the ORM (the mapper writes the discriminator)
         for v in variants(c, _hier(hs, ds, "none"), rng, TIER != "quick"):
             H = _hier(hs, ds, v["mcfg"])
@@ -256,9 +260,9 @@ def plans_for(chk):
     base = dict(oq.BASE)
     sc = oq.scale()
     if chk.quick:
-        return [("InitPart2", dict(base, K=1, GridKeep=max(1, int(100 * sc)), NQ=int(800 * sc), NH=4, Mixed=False))]
+        return [("InitPart2", dict(base, K=1, GridKeep=max(1, int(45 * sc)), NQ=int(700 * sc), NH=4, Mixed=False))]
     return [("InitPart2", dict(base, K=1, NQ=int(1800 * sc), NH=4, Mixed=False)),
-            ("InitPart2", dict(base, K=1, GridKeep=30, NQ=int(1800 * sc), NH=4, Mixed=True))]
+            ("InitPart2", dict(base, K=1, GridKeep=20, NQ=int(1800 * sc), NH=4, Mixed=True))]
 
 
 def main(chk):
@@ -269,7 +273,7 @@ def main(chk):
     rng.shuffle(cases)
     CASES = cases
     res = oq.pmap(worker, len(cases))
-    tot = dict(cases=0, runs=0, nontrivial=0, objects=0, orm_loaded=0)
+    tot = dict(cases=0, runs=0, nontrivial=0, objects=0, orm_loaded=0, single_over_joined=0)
     cov = {}
     for viol, cnt, cv in res:
         for sig, what, rp in viol:
@@ -280,16 +284,18 @@ def main(chk):
             cov[k_] = cov.get(k_, 0) + v
     for via in ("direct", "jot", "aot", "items"):
         for poly in ("none", "wpall", "wppart") + (("sip",) if via in ("direct", "items") else ()):
-            for mk in ("single", "joined"):
+            for mk in ("single", "joined", "mixed"):
                 if oq.scale() >= 1 and not chk.violations and not any(v for k_, v in cov.items() if k_.startswith("%s/%s/" % (via, poly)) and k_.endswith("/" + mk)):
                     chk.machinery("vacuous: %s / %s / %s never ran on a result containing a subclass row" % (via, poly, mk))
+    if oq.scale() >= 1 and not chk.violations and not tot["single_over_joined"]:
+        chk.machinery("vacuous: no query against a non-base single-table class whose result holds a row of a joined-table subclass")
     shapes = {(tuple(c["ds"]["cls"]), c["ds"]["c2par"]) for c in cases}
     samples = [dict(ds=c["ds"], q=c["q"], rows=c["rows"], objs=c["objs"]) for c in cases
                if len(c["rows"]) >= 2 and c["q"]["via"] == "direct" and c["q"]["at"] != "A"][:3]
     return chk.finish(
         dict(states=sum(r["distinct"] for r in runs), transitions=sum(r["generated"] for r in runs),
              traces_validated_against_impl=tot["cases"], evaluations=tot["runs"], distinct_nontrivial=tot["nontrivial"],
-             objects_checked=tot["objects"], runs_on_orm_persisted_rows=tot["orm_loaded"], hierarchy_shapes=len(shapes), option_coverage_nontrivial=cov, samples=samples, tlc_runs=runs,
+             objects_checked=tot["objects"], runs_on_orm_persisted_rows=tot["orm_loaded"], single_class_over_joined_subclass_cases=tot["single_over_joined"], hierarchy_shapes=len(shapes), option_coverage_nontrivial=cov, samples=samples, tlc_runs=runs,
              exhaustive=False,
              rule="one case per TLC initial state (hierarchy shape x mapping kind x rows x query); each case runs under every applicable "
                   "polymorphic option (plain / with_polymorphic * / partial / flat / aliased / selectin_polymorphic / of_type target / 5 "
